@@ -49,6 +49,56 @@ def validate(chk, traces, label):
             raise core.MachineryError('Trace_Lifecycle failed: %s' % r2.errors[:3])
 
 
+def interrupted_negotiation(seed, policy):
+    """The user ends a connection whose status query (version negotiation) is still unanswered, and connects again: the
+    first connection stays ended (its dying thread does not take the end of its stream for a server without status
+    support and log in with the default version), and the second one is the user's: status query, then a login with the
+    version the server reports.  Returns (run, results of the calls, [(tcp index, protocol, next state)])."""
+    from ..session import Run, TracingScript
+    from ..profile import Profile
+    from .. import peer as P
+    run = Run(policy=policy, seed=seed)
+    log = []
+
+    def factory(idx, sess):
+        sc = TracingScript(run, None, [])
+
+        class Lazy(object):
+            def parse(self_, state, fr):
+                if state == 'handshake':
+                    pv = P.Reader(fr['body']).varint()
+                    sc.prof = Profile(pv if pv in (757, 340) else 757)
+                return sc.prof.parse(state, fr)
+        sc.prof = Lazy()
+
+        def dispatch(s):
+            hs = s.parsed[0]
+            log.append((idx, hs['protocol'], hs['next']))
+            if hs['next'] == 1:
+                if idx == 0:
+                    s.steps += [('pause', 'never')]             # the first query is not answered in time
+                else:
+                    s.steps += [('send', s.prof.status_response(P.status_json(protocol=757, name='srv')))]
+            else:
+                s.steps += [('send', s.prof.login_success(bytes(range(16)), 'verif')), ('call', lambda s_: setattr(s_, 'state', 'play'))]
+        sc.steps = [('expect', 2), ('call', dispatch)]
+        return sc
+    run.serve(factory)
+    res = {}
+
+    def scenario(run):
+        c = run.make_connection(allowed_versions={757, 340}, initial_version=340)
+        res['connect1'] = lifecycle.api(run, c, 'connect')
+        run.settle()
+        res['disc_now'] = lifecycle.api(run, c, 'disc_now')
+        res['connect2'] = lifecycle.api(run, c, 'connect')
+        run.settle()
+        res['version'] = c.context.protocol_version
+        res['disc'] = lifecycle.api(run, c, 'disc')
+    run.go(scenario)
+    return run, res, log
+
+
 def run(chk):
     core.import_minecraft()
     rng = random.Random(chk.seed)
@@ -123,6 +173,20 @@ def run(chk):
                     chk.sample({'history': list(ops), 'servers': list(modes), 'results': got})
     chk.extra['single_thread_histories_replayed'] = n_hist
 
+    # ---- 2b. a negotiation interrupted by the user, then connect() again (seeded schedules)
+    n_neg = 160 if quick else 2000
+    for j in range(n_neg):
+        pol = vsched.SequentialPolicy() if j % 4 == 0 else vsched.RandomPolicy(chk.seed * 1000 + j, switch_prob=(0.05, 0.3, 0.7)[j % 3])
+        run_, res_, log_ = interrupted_negotiation(chk.seed * 83 + j, pol)
+        chk.traces += 1
+        chk.case(('interrupted-negotiation', j))
+        want = [(0, 757, 1), (1, 757, 1), (2, 757, 2)]
+        calls_ok = all(res_.get(k) == 'ok' for k in ('connect1', 'disc_now', 'connect2', 'disc'))
+        if run_.outcome not in ('done', 'quiescent') or not calls_ok or log_ != want or res_.get('version') != 757:
+            chk.violation('lifecycle:disconnect-during-status-query', 'disconnect(immediate) while the status query of a negotiating connect() was '
+                          'unanswered, then connect() (schedule %d): calls %r, TCP connections (index, protocol, next state) %r - expected %r and a '
+                          'login at 757; execution %s' % (j, res_, log_, want, run_.outcome), {'j': j})
+    chk.extra['interrupted_negotiations'] = n_neg
     # ---- 3. I->S: two-thread scenarios
     traces = []
     # 3a. preemption-bounded exploration of small scenarios
